@@ -128,6 +128,8 @@ fn c05_alphabet(capacity: usize) -> Vec<Op> {
         Op::Resize { c: 1 },
         Op::Resize { c: capacity + 1 },
         Op::EvictAll,
+        Op::Fetch { k: 2, w: 1, hold: false },
+        Op::Fetch { k: 3, w: 2, hold: false },
     ]
 }
 
@@ -194,6 +196,8 @@ fn c13_alphabet(capacity: usize) -> Vec<Op> {
         Op::Resize { c: capacity + 1 },
         Op::EvictAll,
         Op::Flush,
+        Op::Fetch { k: 1, w: 1, hold: false },
+        Op::Fetch { k: 3, w: 1, hold: true },
     ]
 }
 
@@ -291,7 +295,7 @@ fn c14_alphabet(capacity: usize) -> Vec<Op> {
 fn c14_jobs(tier: Tier) -> Vec<SeqJob> {
     let mut jobs = vec![];
     let (caps, d1, d2): (Vec<usize>, usize, usize) = match tier {
-        Tier::Quick => (vec![2, 3, 4], 3, 6),
+        Tier::Quick => (vec![2, 3, 4], 3, 5),
         Tier::Thorough => (vec![2, 3, 4, 5, 6], 4, 10),
     };
     for algo in c14_algos(tier) {
@@ -351,6 +355,8 @@ fn c18_alphabet(capacity: usize) -> Vec<Op> {
         Op::Clear,
         Op::Resize { c: 1 },
         Op::Resize { c: capacity + 1 },
+        Op::Fetch { k: 1, w: 1, hold: true },
+        Op::Fetch { k: 3, w: 1, hold: false },
     ]
 }
 
